@@ -173,12 +173,25 @@ def selector_programs():
             except AssertionError:
                 pass
 
+    def _ref_vals(b, n, window=250):
+        """discounted mean + bonus per arm from the recorded history (independent of the class's own helpers)"""
+        import math
+        t = len(b.chosen_arms)
+        num, cnt = [0] * n, [0.0] * n
+        for s_ in range(max(0, t - window), t):
+            w = b.gamma ** (t - 1 - s_)
+            a = int(b.chosen_arms[s_])
+            num[a] = num[a] + w * b.rewards[s_]
+            cnt[a] += w
+        tot = sum(cnt)
+        return [num[j] / cnt[j] + 2 * b.upper_bound * math.sqrt(b.zeta * math.log(tot) / cnt[j]) for j in range(n)]
+
     def ducb(ctx):
         n = 2
-        b = mapb.DUCB(n_arms=n, upper_bound=1.0, gamma=0.9, zeta=0.002)
+        b = mapb.DUCB(n_arms=n, upper_bound=1.0, gamma=0.5, zeta=0.002)
         for i in range(2 * n + 1):
             before = len(b.rewards)
-            vals = [b._discounted_empirical_mean(j) + b._padding_function(j) for j in range(n)] if before >= 2 * n else None
+            vals = _ref_vals(b, n) if before >= 2 * n else None
             arm = b.choose_arm()
             ctx.check(0 <= int(arm) < n, "selector-returns-valid-task-ids")
             if before < 2 * n:
@@ -187,6 +200,21 @@ def selector_programs():
                 for j in range(n):
                     ctx.check(vals[int(arm)] >= vals[j], "ducb-afterwards-plays-an-arm-maximising-discounted-mean+bonus")
             b.reward(sym_real(f"rew{i}", 0, 1))
+
+    def ducb_long(ctx):
+        """history longer than the 250-round window: state constructed directly (251 and 253 recorded rounds), the
+        rewards at both ends of the window symbolic, the others 1/2"""
+        n = 2
+        for t in (251, 253):
+            b = mapb.DUCB(n_arms=n, upper_bound=1.0, gamma=0.5, zeta=0.002)
+            b.chosen_arms = [(s_ * 7 // 3) % n for s_ in range(t)]
+            sym_at = {0, 1, 2, 3, t - 3, t - 2, t - 1}
+            b.rewards = [sym_real(f"rew{t}_{s_}", 0, 1) if s_ in sym_at else 0.5 for s_ in range(t)]
+            b._episode_finished()
+            vals = _ref_vals(b, n)
+            arm = b.choose_arm()
+            for j in range(n):
+                ctx.check(vals[int(arm)] >= vals[j], "ducb-afterwards-plays-an-arm-maximising-discounted-mean+bonus")
 
     def ducb_general(ctx):
         tasks = np.arange(2)
@@ -200,7 +228,7 @@ def selector_programs():
             except AssertionError:
                 pass
             sel.feedback(sym_real(f"r{i}", 0, 1))
-    return [("RoundRobinSelector", round_robin), ("mapb.DUCB", ducb), ("DUCBGeneralized", ducb_general)]
+    return [("RoundRobinSelector", round_robin), ("mapb.DUCB", ducb), ("mapb.DUCB[history>window]", ducb_long), ("DUCBGeneralized", ducb_general)]
 
 
 def main(tier, seed):
